@@ -29,7 +29,7 @@ func (mon) Level(string) (string, string) {
 	return "exploration", "exhaustive lattice 9 field types x 16 source masks {tag default, JSON, env, cli} x {top-level, nested, doubly nested} x {comma, pipe tag syntax} x carriers {-config absolute, ~/ with HOME redirected, relative, CFG_CONFIG_B64, both (file wins), none} x legal cli spellings x value schemes (every pool value - zero, one, extremes, awkward strings, byte slices - in every source position, plus an empty text per textual source over non-zero lower sources), each with a sibling field mentioned by exactly the complementary sources; " +
 		"plus a history lattice in which the struct value handed to NewFlagSet is not fresh - per type x mask x nesting x tag syntax (a) every leaf pre-filled with non-zero garbage of its type (also a random quarter of all other cases), (b) reload: an earlier NewFlagSet+Parse round on the same struct value in which the field was mentioned by each of the 8 subsets of {JSON, env, cli} with other values, then the round under test, judged by its own sources only (the model never looks at the prior content); " +
 		"plus seeded random structs of 1..12 fields with independent masks, a quarter of them pre-filled and a quarter after an earlier random round. " +
-		"The thorough tier runs the same lattice over larger value pools and nesting depths 0,1,2,3,5: integers around 2^7..2^63 incl. 2^53+-1 and Min/MaxInt64/MaxUint64, floats -0 / subnormal / smallest normal / max / 1e23 in the spellings g, e, E, f and 25 digits, durations around every unit border spelled in every unit (ns, us, both micro signs, ms, s, m, h, fractional seconds, all units spelled out), strings with every JSON escape style, Unicode borders, look-alikes of other types, invalid UTF-8 (text sources), 4 KiB and 64 KiB values, byte slices of every padding length up to 64 KiB; JSON documents additionally CRLF/tab/blank padded and with every member written twice with the identical value; identifiers with digits and underscores and 400 two-word names; " +
+		"The thorough tier runs the same lattice over larger value pools and nesting depths 0,1,2,3,5: integers around 2^7..2^63 incl. 2^53+-1 and Min/MaxInt64/MaxUint64, floats -0 / subnormal / smallest normal / max / 1e23 in the spellings g, e, E, f and 25 digits, durations around every unit border spelled in every unit (ns, us, both micro signs, ms, s, m, h, fractional seconds, all units spelled out), strings with every JSON escape style, Unicode borders, look-alikes of other types, invalid UTF-8 (text sources), 4 KiB and 64 KiB values, byte slices of every padding length up to 64 KiB; JSON documents additionally CRLF/tab/blank padded and with every scalar member (and every top-level object) written twice with the identical value; identifiers with digits and underscores and 400 two-word names; " +
 		"and adds: wide structs of 50..200 fields (flat, flat at the bottom of 1..5 levels, or spread over 5 levels) with independent masks; large values (64 KiB+1 and 1 MiB strings and byte slices in the tag, either JSON carrier, environment and command line, 15 masks x 3 carriers); reload chains of 3..5 NewFlagSet+Parse rounds on one struct value; 2..8 FlagSets of one struct type made and parsed in goroutines released together, each with its own struct value and command line (also under -race when ./check builds the race binary of this monitor); " +
 		"distinct_nontrivial = distinct structural signatures (carrier, path kind, decoy, history; per field type, mask, depth, tag syntax, cli spelling, which sources are empty/zero) of cases in which at least one winning source says something else than the next lower source"
 }
